@@ -68,10 +68,8 @@ def parseAtom (j : Json) : Except String Atom := do
   | "none" => return .none
   | "bool" => return .bool (← j.getObjValAs? Bool "v")
   | "int" =>
-    let n ← j.getObjValAs? Int "v"
-    let f := match j.getObjValAs? Nat "f32" with | .ok p => some p | .error _ => none
-    return .int n f
-  | "float" => return .float (← j.getObjValAs? Nat "bits") (← j.getObjValAs? Nat "f32")
+    return .int (← j.getObjValAs? Int "v")
+  | "float" => return .float (← j.getObjValAs? Nat "bits")
   | "str" => return .str (charsOf (← natList j "v"))
   | "bytes" => return .bytes (bytesOf (← natList j "v"))
   | "ndarray" => return .ndarray (← parseArr j)
@@ -153,6 +151,12 @@ def handleE (req : Json) : Except String Json := do
     let st := capture mode h a
     return Json.mkObj [("at_call", toJson (observe h st)), ("after", toJson (observe (mutate h muts) st)),
       ("safe", toJson (safe mode a.kind))]
+  | "r32" =>
+    let bs ← natList req "bits"
+    return Json.mkObj [("f32", toJson (bs.map FloatBits.r32))]
+  | "i2d" =>
+    let ns ← intList req "ints"
+    return Json.mkObj [("f64", Json.arr (ns.map fun n => optJson (fun (b : Nat) => toJson b) (FloatBits.i2d n)).toArray)]
   | "tables" =>
     return Json.mkObj [
       ("capture", Json.arr (Generated.CaptureTable.table.map fun e =>
